@@ -28,7 +28,7 @@ import os
 from .astutil import clone
 
 _KNOWN = None
-MAX_STMTS = 40
+MAX_STMTS = 80
 MAX_ROUNDS = 3
 
 
@@ -705,8 +705,17 @@ class Inliner:
         """``t = h(..)`` where h ends in ``while True:`` and returns only
         from inside that loop (not from a nested loop, no break of its own):
         every ``return v`` becomes ``t = v; break``."""
-        if kind != 'assign' or not body or len(target) != 1 or \
-                not isinstance(target[0], ast.Name):
+        bare = kind == 'expr' and all(
+            r.value is None for st_ in body for r in ast.walk(st_)
+            if isinstance(r, ast.Return))
+        if not bare and (kind != 'assign' or not body or len(
+                target) != 1 or not isinstance(target[0], ast.Name)):
+            return None
+        outer_ = {n_ for st_ in body for x_ in ast.walk(st_)
+                  if isinstance(x_, (ast.Nonlocal, ast.Global))
+                  for n_ in x_.names}
+        body = [st_ for st_ in body if not isinstance(st_, ast.Nonlocal)]
+        if not body:
             return None
         loop = body[-1]
         if not (isinstance(loop, ast.While) and isinstance(
@@ -742,9 +751,9 @@ class Inliner:
             return None
         self.counter += 1
         suffix = f'__inl{self.counter}'
-        assigned = _assigned_names(body)
-        tname = target[0].id
-        if tname in assigned:
+        assigned = _assigned_names(body) - outer_
+        tname = target[0].id if not bare else None
+        if tname is not None and tname in assigned:
             return None
         ren = {n: n + suffix for n in assigned
                if n not in env and n in self.caller_names}
@@ -764,6 +773,8 @@ class Inliner:
                 return n
 
             def visit_Return(self_, n):
+                if bare:
+                    return ast.Break()
                 val = n.value if n.value is not None else ast.Constant(
                     value=None)
                 return [ast.Assign(targets=[ast.Name(id=tname,
@@ -789,7 +800,13 @@ class Inliner:
                     return None
         self.counter += 1
         suffix = f'__inl{self.counter}'
-        assigned = _assigned_names(body)
+        outer = {n_ for st_ in body for x_ in ast.walk(st_)
+                 if isinstance(x_, (ast.Nonlocal, ast.Global))
+                 for n_ in x_.names}
+        if outer:
+            body = [st_ for st_ in body
+                    if not isinstance(st_, ast.Nonlocal)]
+        assigned = _assigned_names(body) - outer
         ren = {n: n + suffix for n in assigned
                if n not in env and n in self.caller_names}
         full = dict(env)
@@ -885,8 +902,44 @@ class Inliner:
         self.lower_table_lookups()
         self.split_tuple_assigns()
         self.fold_constant_fstrings()
+        self.forward_result_temps()
         ast.fix_missing_locations(self.tree)
         return self.tree
+
+    def forward_result_temps(self):
+        """``h__res1 = x`` (a temporary of this normaliser bound to a plain
+        name) directly followed by the ``if`` that is its only reader: the
+        test reads ``x``."""
+        for f in [x for x in ast.walk(self.tree)
+                  if isinstance(x, ast.FunctionDef)]:
+            loads = {}
+            for x in ast.walk(f):
+                if isinstance(x, ast.Name) and isinstance(x.ctx, ast.Load):
+                    loads[x.id] = loads.get(x.id, 0) + 1
+            for x in ast.walk(f):
+                for fld in ('body', 'orelse', 'finalbody'):
+                    blk = getattr(x, fld, None)
+                    if not (isinstance(blk, list) and blk and isinstance(
+                            blk[0], ast.stmt)):
+                        continue
+                    i = 0
+                    while i + 1 < len(blk):
+                        a, b = blk[i], blk[i + 1]
+                        if isinstance(a, ast.Assign) and len(
+                                a.targets) == 1 and isinstance(
+                                    a.targets[0], ast.Name) and \
+                                '__res' in a.targets[0].id and isinstance(
+                                    a.value, ast.Name) and isinstance(
+                                        b, ast.If):
+                            t = a.targets[0].id
+                            inb = sum(1 for y in ast.walk(b.test)
+                                      if isinstance(y, ast.Name)
+                                      and y.id == t)
+                            if inb and inb == loads.get(t, 0):
+                                b.test = _Subst({t: a.value}).visit(b.test)
+                                del blk[i]
+                                continue
+                        i += 1
 
     def fold_constant_fstrings(self):
         """``f'--match-{'out'}{'-cc'}'`` (left over when a table-driven
@@ -3004,6 +3057,197 @@ def flatten_records(tree, records):
     return notes
 
 
+def dissolve_local_state_classes(tree, modname):
+    """A private class that did not exist on the pinned tree, without
+    bases, whose only instance is created in ONE function F (``v = C(..)``)
+    and used there only as ``v.attr`` / ``v.method(..)``, and whose methods
+    use ``self`` only as ``self.attr`` / ``self.method(..)``: the object is a
+    bundle of F's local variables.  Attributes become locals of F, methods
+    become private module-level functions over those names (marked
+    ``nonlocal`` so that the helper inliner splices them into F without
+    renaming the shared names).  An attribute that ``__init__`` sets to a
+    constructor argument which F passes as a plain local it does not use
+    again keeps that local's name."""
+    notes = []
+    known = known_private().get(modname, set())
+    for cd in [x for x in tree.body if isinstance(x, ast.ClassDef)]:
+        cname = cd.name
+        if not cname.startswith('_') or cname in known or cd.bases or \
+                cd.keywords or cd.decorator_list:
+            continue
+        meths = {}
+        ok = True
+        for st in cd.body:
+            if isinstance(st, ast.Expr) and isinstance(st.value,
+                                                       ast.Constant):
+                continue
+            if isinstance(st, ast.FunctionDef) and not st.decorator_list \
+                    and st.args.args and st.args.args[0].arg == 'self' \
+                    and not st.args.vararg and not st.args.kwarg:
+                meths[st.name] = st
+                continue
+            ok = False
+        if not ok or not meths:
+            continue
+        # where is it instantiated
+        insts = []
+        for f in [x for x in ast.walk(tree) if isinstance(x, ast.FunctionDef)
+                  and x not in meths.values()]:
+            for st in ast.walk(f):
+                if isinstance(st, ast.Assign) and len(
+                        st.targets) == 1 and isinstance(
+                            st.targets[0], ast.Name) and isinstance(
+                                st.value, ast.Call) and isinstance(
+                                    st.value.func, ast.Name) and \
+                        st.value.func.id == cname:
+                    insts.append((f, st))
+        nrefs = sum(1 for x in ast.walk(tree) if isinstance(x, ast.Name)
+                    and x.id == cname)
+        if len(insts) != 1 or nrefs != 1:
+            continue
+        F, inst = insts[0]
+        if F in [y for m_ in meths.values() for y in ast.walk(m_)]:
+            continue
+        v = inst.targets[0].id
+        # v only as v.<name>
+        par = {}
+        for p_ in ast.walk(F):
+            for c_ in ast.iter_child_nodes(p_):
+                par[id(c_)] = p_
+        uses = [x for x in ast.walk(F) if isinstance(x, ast.Name)
+                and x.id == v and x is not inst.targets[0]]
+        if not uses or not all(isinstance(par.get(id(u)), ast.Attribute)
+                               and par[id(u)].value is u for u in uses):
+            continue
+        # self only as self.<name>
+        bad = False
+        for m_ in meths.values():
+            mp = {}
+            for p_ in ast.walk(m_):
+                for c_ in ast.iter_child_nodes(p_):
+                    mp[id(c_)] = p_
+            for x in ast.walk(m_):
+                if isinstance(x, ast.Name) and x.id == 'self' and not (
+                        isinstance(mp.get(id(x)), ast.Attribute)
+                        and mp[id(x)].value is x):
+                    bad = True
+            if any(isinstance(x, (ast.Lambda, ast.FunctionDef))
+                   and x is not m_ for x in ast.walk(m_)):
+                bad = True
+        if bad:
+            continue
+        mangled = {n_: n_ for n_ in meths}
+        attrs = set()
+        for m_ in list(meths.values()) + [F]:
+            base = 'self' if m_ is not F else v
+            for x in ast.walk(m_):
+                if isinstance(x, ast.Attribute) and isinstance(
+                        x.value, ast.Name) and x.value.id == base and \
+                        x.attr not in meths:
+                    attrs.add(x.attr)
+        f_names = {x.id for x in ast.walk(F) if isinstance(x, ast.Name)} | {
+            a.arg for a in F.args.args}
+        name_of = {}
+        init = meths.get('__init__')
+        iparams = [a.arg for a in init.args.args[1:]] if init else []
+        iargs = dict(zip(iparams, inst.value.args)) if init and not \
+            inst.value.keywords and len(inst.value.args) == len(
+                iparams) else None
+        if init is not None and iargs is None:
+            continue
+        drop_init_stmts = set()
+        if init is not None:
+            for st in init.body:
+                if isinstance(st, ast.Assign) and len(
+                        st.targets) == 1 and isinstance(
+                            st.targets[0], ast.Attribute) and isinstance(
+                                st.targets[0].value, ast.Name) and \
+                        st.targets[0].value.id == 'self' and isinstance(
+                            st.value, ast.Name) and st.value.id in iargs \
+                        and isinstance(iargs[st.value.id], ast.Name):
+                    n_ = iargs[st.value.id].id
+                    later = [x for x in ast.walk(F) if isinstance(
+                        x, ast.Name) and x.id == n_
+                        and getattr(x, 'lineno', 0) > inst.lineno]
+                    if not later and st.targets[0].attr not in name_of:
+                        name_of[st.targets[0].attr] = n_
+                        drop_init_stmts.add(id(st))
+        for a_ in sorted(attrs):
+            if a_ in name_of:
+                continue
+            cand = a_.lstrip('_') or a_
+            if cand in f_names or cand in name_of.values():
+                cand = f'{cand}__{v}'
+            name_of[a_] = cand
+        fname_of = {n_: f'_{cname.strip("_")}__{n_.strip("_")}'
+                    for n_ in meths}
+
+        class T(ast.NodeTransformer):
+
+            def __init__(self_, base):
+                self_.base = base
+
+            def visit_Call(self_, n):
+                n = self_.generic_visit(n)
+                if isinstance(n.func, ast.Attribute) and isinstance(
+                        n.func.value, ast.Name) and \
+                        n.func.value.id == self_.base and \
+                        n.func.attr in meths:
+                    n.func = ast.copy_location(ast.Name(
+                        id=fname_of[n.func.attr], ctx=ast.Load()), n.func)
+                return n
+
+            def visit_Attribute(self_, n):
+                n = self_.generic_visit(n)
+                if isinstance(n.value, ast.Name) and \
+                        n.value.id == self_.base and n.attr in name_of:
+                    return ast.copy_location(ast.Name(id=name_of[n.attr],
+                                                      ctx=n.ctx), n)
+                return n
+
+        newfuncs = []
+        for n_, m_ in meths.items():
+            body = [T('self').visit(b) for b in m_.body
+                    if id(b) not in drop_init_stmts]
+            # all state names: callees spliced in later bring theirs along
+            used = sorted(set(name_of.values()))
+            if used:
+                body.insert(0 if not (body and isinstance(
+                    body[0], ast.Expr) and isinstance(
+                        body[0].value, ast.Constant)) else 1,
+                            ast.Nonlocal(names=used))
+            fn = ast.FunctionDef(
+                name=fname_of[n_],
+                args=ast.arguments(
+                    posonlyargs=[], args=m_.args.args[1:],
+                    kwonlyargs=m_.args.kwonlyargs,
+                    kw_defaults=m_.args.kw_defaults,
+                    defaults=m_.args.defaults, vararg=None, kwarg=None),
+                body=body or [ast.Pass()], decorator_list=[], returns=None)
+            ast.copy_location(fn, m_)
+            newfuncs.append(fn)
+        # F: the instantiation and the uses
+        if init is not None:
+            call = ast.Expr(value=ast.Call(
+                func=ast.Name(id=fname_of['__init__'], ctx=ast.Load()),
+                args=inst.value.args, keywords=[]))
+        else:
+            call = ast.Pass()
+        ast.copy_location(call, inst)
+        for x in ast.walk(F):
+            for fld in ('body', 'orelse', 'finalbody'):
+                blk = getattr(x, fld, None)
+                if isinstance(blk, list) and inst in blk:
+                    blk[blk.index(inst)] = call
+        F.body = [T(v).visit(b) for b in F.body]
+        i = tree.body.index(cd)
+        tree.body[i:i + 1] = newfuncs
+        notes.append(f'{F.name}: state class {cname} dissolved into locals '
+                     f'({len(attrs)} attributes, {len(meths)} methods)')
+    ast.fix_missing_locations(tree)
+    return notes
+
+
 def inline_contextmanagers(tree, modname):
     """``with H(args) as v: BODY`` where H is a module-level generator
     decorated with ``contextlib.contextmanager`` that did not exist on the
@@ -3157,6 +3401,10 @@ def inline_contextmanagers(tree, modname):
 
 def inline_new_helpers(tree, modname, records=None):
     notes0 = []
+    try:
+        notes0 += dissolve_local_state_classes(tree, modname)
+    except RecursionError:
+        pass
     try:
         notes0 += inline_contextmanagers(tree, modname)
     except RecursionError:
